@@ -70,7 +70,10 @@ def case_strategy(draw, mode=None):
             tasks.append({"op": "stat"})
         else:
             tasks.append({"op": "evaluate", "subject": draw(st.integers(0, 2))})
-    return {"mode": mode or "threads", "tasks": tasks, "pre": draw(st.integers(0, 1)), "schedule": draw(schedule())}
+    pre = draw(st.integers(0, 1))
+    # continue_file=False is only meaningful on a fresh file (it skips rebuilding the claims from the output)
+    return {"mode": mode or "threads", "tasks": tasks, "pre": pre, "schedule": draw(schedule()),
+            "continue_file": True if pre else draw(st.booleans())}
 
 
 def searches(tier):
@@ -181,12 +184,15 @@ def check(case, stats):
     with H.quiet():
         exp = expected_rows()
     header = exp["header"]
+    # every case starts from the module state a fresh interpreter would have (no lock was ever used before)
+    H.fresh_aggregator_locks()
+    from panoptica.panoptica_aggregator import Panoptica_Aggregator
     d = tempfile.mkdtemp(prefix="pv_c16_")
     snapshots = {}
     try:
         out = os.path.join(d, "results.tsv")
         with H.quiet():
-            agg = Panoptica_Aggregator(lib.evaluator(CFG), out)
+            agg = Panoptica_Aggregator(lib.evaluator(CFG), out, continue_file=case.get("continue_file", True))
             submitted = set()
             if case["pre"]:
                 agg.evaluate(*arrays(3), NAMES[3])
@@ -224,7 +230,7 @@ def check(case, stats):
         # no call may leave a lock behind: a later evaluate()/make_statistic() would block for ever
         import panoptica.panoptica_aggregator as A
         leaked = []
-        for name, obj in vars(A).items():
+        for name, obj in list(vars(A).items()):
             if isinstance(obj, sched.SchedLock):
                 if obj.real.acquire(False):
                     obj.real.release()
